@@ -38,6 +38,8 @@ pub enum Op {
     HotTailEdit,
     /// write a file again with exactly the content it already has (new mtime, same bytes)
     Rewrite(u16),
+    /// create many small untracked files at once (a pending map far beyond 64 KiB)
+    BulkCreate(u16),
 }
 
 pub const BIG_SIZES: [usize; 9] = [
@@ -413,6 +415,18 @@ impl Hist {
                 std::thread::sleep(std::time::Duration::from_millis(3));
                 self.env.write_file(&p, &c);
                 format!("rewrite (same content) {:?}", p)
+            }
+            Op::BulkCreate(k) => {
+                let n = 700 + pick(*k, 700);
+                self.counter += 1;
+                let batch = self.counter;
+                for i in 0..n {
+                    let p = format!("two/bulk-{}/generated-file-with-a-long-name-{:04}.txt", batch, i);
+                    let c = format!("bulk {} {}\n", batch, i).into_bytes();
+                    self.env.write_file(&p, &c);
+                    self.work.insert(p, c);
+                }
+                format!("create {} files under two/bulk-{}", n, batch)
             }
             Op::CreateIgnored(k) => {
                 let p = IGNORED[pick(*k, IGNORED.len())].to_string();
